@@ -10,7 +10,9 @@ rule cmB { condition: cuckoo.sync.mutex(/MUTEX_B/) > 0 }\n\
 rule out7 { condition: test_proto2.int32_one == 7 }\n\
 rule out9 { condition: test_proto2.int32_one == 9 }\n\
 rule g1 { condition: g_int == 1 }\nrule g2 { condition: g_int == 2 }\nrule g3 { condition: g_int == 3 }\n\
-rule pat { strings: $a = \"alpha\" condition: $a }\n";
+rule gb { condition: g_bool }\nrule gs { condition: g_str == \"x\" }\nrule gf { condition: g_float > 1.0 }\n\
+rule pat { strings: $a = \"alpha\" condition: $a }\n\
+rule pat2 { strings: $a = \"alpha\" condition: #a == 2 }\n";
 
 fn cuckoo_report(id: u64) -> Vec<u8> {
     format!("{{\"behavior\":{{\"summary\":{{\"mutexes\":[\"MUTEX_{}\"]}}}}}}", if id == 1 { "A" } else { "B" }).into_bytes()
@@ -28,7 +30,7 @@ fn proto2_output(v: i32) -> Vec<u8> {
 }
 
 #[derive(Clone, Debug)]
-enum PStep { SetData(u64), SetOut(u64), SetGlob(u64), Scan, ScanFile, ScanBlock, Finish }
+enum PStep { SetData(u64), SetOut(u64), SetGlob(u64), SetBool(bool), SetStr(bool), SetFloat(bool), Timeout, MaxMatches(usize), FastScan(bool), Callback, Console, Scan, ScanFile, ScanBlock, Finish }
 
 fn observed(d: &ScanDump) -> (u64, u64, u64) {
     let has = |n: &str| d.rules.iter().any(|r| r.ident == n.as_bytes());
@@ -43,16 +45,31 @@ enum RustScanner<'r> { Single(yara_x::Scanner<'r>), Multi(yara_x::blocks::Scanne
 unsafe fn run_pending(rng: &mut Rng, rec: &mut Rec, dir: &str, idx: usize) -> (Vec<String>, Vec<(ScanDump, ScanDump)>, Vec<String>) {
     // steps
     let mut steps = vec![PStep::SetGlob(1 + rng.below(3))];
+    // a setter of any kind: they may come at every position, also between blocks and after finish
+    let setter = |rng: &mut Rng| match rng.below(10) {
+        0 | 1 | 2 => PStep::SetGlob(1 + rng.below(3)), 3 => PStep::SetBool(rng.chance(1, 2)), 4 => PStep::SetStr(rng.chance(1, 2)), 5 => PStep::SetFloat(rng.chance(1, 2)),
+        6 => PStep::Timeout, 7 => PStep::MaxMatches(1 + rng.below(2) as usize), 8 => PStep::FastScan(rng.chance(1, 2)), _ => if rng.chance(1, 2) { PStep::Callback } else { PStep::Console } };
     for _ in 0..6 + rng.below(8) {
-        steps.push(match rng.below(10) { 0 | 1 | 2 => PStep::SetData(1 + rng.below(2)), 3 | 4 => PStep::SetOut(if rng.chance(1, 2) { 7 } else { 9 }), 5 => PStep::SetGlob(1 + rng.below(3)),
-                                         6 | 7 => PStep::Scan, _ => PStep::ScanFile });
+        steps.push(match rng.below(12) { 0 | 1 | 2 => PStep::SetData(1 + rng.below(2)), 3 | 4 => PStep::SetOut(if rng.chance(1, 2) { 7 } else { 9 }), 5 | 6 => setter(rng),
+                                         7 | 8 | 9 => PStep::Scan, _ => PStep::ScanFile });
     }
-    if rng.chance(1, 2) {
-        steps.extend([PStep::SetData(1 + rng.below(2)), PStep::ScanBlock, PStep::Finish, PStep::SetData(1), PStep::SetOut(7)]);
+    if rng.chance(2, 3) {
+        // a block sequence: setters before the first block, between blocks, before and after finish
+        steps.push(PStep::SetData(1 + rng.below(2)));
+        for _ in 0..rng.below(3) { steps.push(setter(rng)); }
+        for _ in 0..1 + rng.below(3) {
+            steps.push(PStep::ScanBlock);
+            for _ in 0..rng.below(3) { steps.push(setter(rng)); }
+        }
+        steps.push(PStep::Finish);
+        for _ in 0..rng.below(3) { steps.push(setter(rng)); }
+        steps.extend([PStep::SetData(1), PStep::SetOut(7)]);
         steps.push(if rng.chance(1, 2) { PStep::Scan } else { PStep::ScanFile });
+        steps.push(PStep::ScanBlock);
+        steps.push(setter(rng));
         steps.push(PStep::Finish);
     }
-    let data = b"xx alpha yy".to_vec();
+    let data = b"xx alpha yy alpha".to_vec();
     let path = format!("{}/scanfile_{}.bin", dir, idx);
     std::fs::write(&path, &data).expect("cannot write the file to scan");
     let cpath = cs(&path);
@@ -63,6 +80,10 @@ unsafe fn run_pending(rng: &mut Rng, rec: &mut Rec, dir: &str, idx: usize) -> (V
     rec.r("yrx_compiler_create", || yrx_compiler_create(0, &mut comp));
     let gname = cs("g_int");
     rec.r("yrx_compiler_define_global_int", || yrx_compiler_define_global_int(comp, gname.as_ptr(), 0));
+    let (gb, gs, gf, sx, sy) = (cs("g_bool"), cs("g_str"), cs("g_float"), cs("x"), cs("y"));
+    rec.r("yrx_compiler_define_global_bool", || yrx_compiler_define_global_bool(comp, gb.as_ptr(), false));
+    rec.r("yrx_compiler_define_global_str", || yrx_compiler_define_global_str(comp, gs.as_ptr(), sy.as_ptr()));
+    rec.r("yrx_compiler_define_global_float", || yrx_compiler_define_global_float(comp, gf.as_ptr(), 0.5));
     let src = cs(PENDING_RULES);
     let code = rec.r("yrx_compiler_add_source", || yrx_compiler_add_source(comp, src.as_ptr()));
     assert_eq!(code, SUCCESS, "the pending-inputs rules were rejected: {:?}", slot());
@@ -77,6 +98,9 @@ unsafe fn run_pending(rng: &mut Rng, rec: &mut Rec, dir: &str, idx: usize) -> (V
     // Rust side
     let mut rcomp = yara_x::Compiler::new();
     rcomp.define_global("g_int", 0i64).unwrap();
+    rcomp.define_global("g_bool", false).unwrap();
+    rcomp.define_global("g_str", "y").unwrap();
+    rcomp.define_global("g_float", 0.5f64).unwrap();
     rcomp.add_source(PENDING_RULES).unwrap();
     let rrules = rcomp.build();
     let mut rs = RustScanner::Single(yara_x::Scanner::new(&rrules));
@@ -87,6 +111,8 @@ unsafe fn run_pending(rng: &mut Rng, rec: &mut Rec, dir: &str, idx: usize) -> (V
     // buffers handed to yrx_scanner_set_module_data: the caller may reuse them once a scan has run
     let mut live: Vec<Vec<u8>> = vec![];
     let (mut coq, mut pairs, mut trace) = (vec![], vec![], vec![]);
+    // result of the setters since the last scanning call, on each side
+    let (mut c_extra, mut r_extra): (Vec<Vec<u8>>, Vec<Vec<u8>>) = (vec![], vec![]);
     for st in &steps {
         trace.push(format!("{:?}", st));
         match st {
@@ -105,9 +131,33 @@ unsafe fn run_pending(rng: &mut Rng, rec: &mut Rec, dir: &str, idx: usize) -> (V
                 coq.push(format!("PSetOut {} {}", coq_n(*v), coq_bool(code == SUCCESS)));
             }
             PStep::SetGlob(g) => {
-                rec.r("yrx_scanner_set_global_int", || yrx_scanner_set_global_int(sc, gname.as_ptr(), *g as i64));
-                match &mut rs { RustScanner::Single(s) => { s.set_global("g_int", *g as i64).unwrap(); } RustScanner::Multi(s) => { s.set_global("g_int", *g as i64).unwrap(); } RustScanner::Gone => {} }
-                coq.push(format!("PSetGlob {}", coq_n(*g)));
+                let code = rec.r("yrx_scanner_set_global_int", || yrx_scanner_set_global_int(sc, gname.as_ptr(), *g as i64));
+                let ok = match &mut rs { RustScanner::Single(s) => s.set_global("g_int", *g as i64).is_ok(), RustScanner::Multi(s) => s.set_global("g_int", *g as i64).is_ok(), RustScanner::Gone => false };
+                c_extra.push(format!("set_global_int:{}", code == SUCCESS).into_bytes()); r_extra.push(format!("set_global_int:{}", ok).into_bytes());
+                coq.push(format!("PSetGlob {} {}", coq_n(*g), coq_bool(code == SUCCESS)));
+            }
+            PStep::SetBool(_) | PStep::SetStr(_) | PStep::SetFloat(_) | PStep::Timeout | PStep::MaxMatches(_) | PStep::FastScan(_) | PStep::Callback | PStep::Console => {
+                // each setter on both sides; its result code goes into the dump of the next scanning call
+                let (name, code, ok): (&str, u32, bool) = match st {
+                    PStep::SetBool(b) => ("set_global_bool", rec.r("yrx_scanner_set_global_bool", || yrx_scanner_set_global_bool(sc, gb.as_ptr(), *b)),
+                        match &mut rs { RustScanner::Single(s) => s.set_global("g_bool", *b).is_ok(), RustScanner::Multi(s) => s.set_global("g_bool", *b).is_ok(), RustScanner::Gone => false }),
+                    PStep::SetStr(x) => { let v = if *x { "x" } else { "y" };
+                        ("set_global_str", rec.r("yrx_scanner_set_global_str", || yrx_scanner_set_global_str(sc, gs.as_ptr(), if *x { sx.as_ptr() } else { sy.as_ptr() })),
+                        match &mut rs { RustScanner::Single(s) => s.set_global("g_str", v).is_ok(), RustScanner::Multi(s) => s.set_global("g_str", v).is_ok(), RustScanner::Gone => false }) }
+                    PStep::SetFloat(hi) => { let v = if *hi { 2.5f64 } else { 0.5 };
+                        ("set_global_float", rec.r("yrx_scanner_set_global_float", || yrx_scanner_set_global_float(sc, gf.as_ptr(), v)),
+                        match &mut rs { RustScanner::Single(s) => s.set_global("g_float", v).is_ok(), RustScanner::Multi(s) => s.set_global("g_float", v).is_ok(), RustScanner::Gone => false }) }
+                    PStep::Timeout => ("set_timeout", rec.r("yrx_scanner_set_timeout", || yrx_scanner_set_timeout(sc, 60)),
+                        match &mut rs { RustScanner::Single(s) => { s.set_timeout(std::time::Duration::from_secs(60)); true } RustScanner::Multi(s) => { s.set_timeout(std::time::Duration::from_secs(60)); true } RustScanner::Gone => false }),
+                    PStep::MaxMatches(n) => ("max_matches_per_pattern", rec.r("yrx_scanner_max_matches_per_pattern", || yrx_scanner_max_matches_per_pattern(sc, *n)),
+                        match &mut rs { RustScanner::Single(s) => { s.max_matches_per_pattern(*n); true } RustScanner::Multi(s) => { s.max_matches_per_pattern(*n); true } RustScanner::Gone => false }),
+                    PStep::FastScan(y) => ("fast_scan", rec.r("yrx_scanner_fast_scan", || yrx_scanner_fast_scan(sc, *y)),
+                        match &mut rs { RustScanner::Single(s) => { s.fast_scan(*y); true } RustScanner::Multi(s) => { s.fast_scan(*y); true } RustScanner::Gone => false }),
+                    PStep::Callback => ("on_matching_rule", rec.r("yrx_scanner_on_matching_rule", || yrx_scanner_on_matching_rule(sc, cb_rule, ud)), true),
+                    _ => ("on_console_log", rec.r("yrx_scanner_on_console_log", || yrx_scanner_on_console_log(sc, cb_console)),
+                        match &mut rs { RustScanner::Single(s) => { s.console_log(|_| {}); true } RustScanner::Multi(s) => { s.console_log(|_| {}); true } RustScanner::Gone => false }),
+                };
+                c_extra.push(format!("{}:{}", name, code == SUCCESS).into_bytes()); r_extra.push(format!("{}:{}", name, ok).into_bytes());
             }
             PStep::Scan | PStep::ScanFile | PStep::ScanBlock | PStep::Finish => {
                 (*(ud as *mut Vec<RuleDump>)).clear();
@@ -117,7 +167,7 @@ unsafe fn run_pending(rng: &mut Rng, rec: &mut Rec, dir: &str, idx: usize) -> (V
                     PStep::ScanBlock => ("KScanBlock", rec.r("yrx_scanner_scan_block", || yrx_scanner_scan_block(sc, 0, data.as_ptr(), data.len()))),
                     _ => ("KFinish", rec.r("yrx_scanner_finish", || yrx_scanner_finish(sc))),
                 };
-                let cd = ScanDump { status: c_status(code), extra: vec![], rules: (*(ud as *mut Vec<RuleDump>)).clone() };
+                let cd = ScanDump { status: c_status(code), extra: std::mem::take(&mut c_extra), rules: (*(ud as *mut Vec<RuleDump>)).clone() };
                 // the scan has run: the caller reuses its module-data buffers
                 for b in live.iter_mut() { for x in b.iter_mut() { *x = b'{'; } }
                 // the Rust API, same step
@@ -143,6 +193,7 @@ unsafe fn run_pending(rng: &mut Rng, rec: &mut Rec, dir: &str, idx: usize) -> (V
                         match &mut rs { RustScanner::Multi(s) => rust_results(s.finish()), _ => ScanDump { status: 98, ..Default::default() } }
                     }
                 };
+                let mut rd = rd; rd.extra = std::mem::take(&mut r_extra);
                 let (od, oo, og) = observed(&cd);
                 coq.push(format!("PScanStep {} {} {} {} {}", kind, coq_bool(code == INVALID_STATE), coq_n(od), coq_n(oo), coq_n(og)));
                 trace.push(format!("  -> code {} observed data={} output={} global={}", code, od, oo, og));
